@@ -9,6 +9,9 @@ ids = sys.argv[2:] or sorted(d for d in os.listdir(BASE) if d.startswith("C") an
 PROPS = ["C%02d" % i for i in range(1, 21)]
 jobs = []
 for i in ids:
+    if os.path.exists(os.path.join(BASE, i, "patch.diff")):      # flat layout: <BASE>/Cxx-k/patch.diff
+        jobs.append((i, os.path.join(BASE, i, "patch.diff")))
+        continue
     od = os.path.join(BASE, i, "out") if os.path.isdir(os.path.join(BASE, i, "out")) else os.path.join(BASE, i)
     for k in sorted(os.listdir(od)):
         p = os.path.join(od, k, "patch.diff")
@@ -35,7 +38,7 @@ def one(job):
     return name, res
 
 out = {}
-with ThreadPoolExecutor(max_workers=6) as ex:
+with ThreadPoolExecutor(max_workers=12) as ex:
     for name, res in ex.map(one, jobs):
         out[name] = res
         print(name, "applies=%s" % res.get("applies"), "ALARMS=%s" % sorted(res.get("alarms", {})), "undecided=%s" % sorted(res.get("undecided", {})))
@@ -45,4 +48,6 @@ with ThreadPoolExecutor(max_workers=6) as ex:
         for p, v in res.get("undecided", {}).items():
             for l in v[:1]:
                 print("      ", l[:300])
-json.dump(out, open("/tmp/refac_matrix_%s.json" % "_".join(ids)[:40], "w"), indent=1)
+dst = os.path.join(BASE, "MATRIX.json") if os.path.abspath(BASE).startswith(HERE) and len(sys.argv) == 2 else "/tmp/refac_matrix_%s.json" % "_".join(ids)[:40]
+json.dump(out, open(dst, "w"), indent=1, sort_keys=True)
+print("alarming refactors: %d, undecided only: %d, silent: %d -> %s" % (sum(1 for r in out.values() if r.get("alarms")), sum(1 for r in out.values() if not r.get("alarms") and r.get("undecided")), sum(1 for r in out.values() if r.get("applies") and not r.get("alarms") and not r.get("undecided")), dst))
